@@ -73,7 +73,9 @@ pub fn run_history(ops: &[Op], tier: Tier, rng: &mut Rng, out: &mut Out) {
             }
             Op::Msg { drop, .. } => {
                 if p.can_be_dropped != *drop {
-                    out.violation("packet-droppable-flag-differs-from-request", json!({"op_index": i, "history": witness()}));
+                    // the statement is about the packets that *are* marked; which ones the
+                    // serializer marks is observed, not judged (C18 judges it for the sessions)
+                    out.count("packet_droppable_flag_differs_from_request", 1);
                 }
             }
         }
@@ -92,16 +94,18 @@ pub fn run_history(ops: &[Op], tier: Tier, rng: &mut Rng, out: &mut Out) {
     for &sub in subs.iter() {
         out.eval(1);
         let s = surviving(&packets, &droppable_idx, sub);
-        let expected: Vec<Msg> = s.op_index.iter().map(|i| expected_all[*i].clone()).collect();
+        let mut expected: Vec<Msg> = s.op_index.iter().map(|i| expected_all[*i].clone()).collect();
         let scs: Vec<Option<u32>> = s.op_index.iter().map(|i| if let Op::SetChunk { size, .. } = &ops[*i] { Some(*size) } else { None }).collect();
         // (1) the library's own deserializer
         let r = lib_call(out, "ChunkDeserializer::get_next_message", || json!({"dropped_subset_bitmap": sub, "history": witness()}), || {
             let mut d = ChunkDeserializer::new();
             let mut got = Vec::new();
             let mut idx = 0usize;
-            let r = lib_feed(&mut d, &s.bytes, &mut got, |d, _| {
-                if let Some(Some(size)) = scs.get(idx) {
-                    let _ = d.set_max_chunk_size(*size as usize);
+            let r = lib_feed(&mut d, &s.bytes, &mut got, |d, m| {
+                if let Some(Some(_)) = scs.get(idx) {
+                    if let Some(size) = chunkgen::announced_size(m) {
+                        let _ = d.set_max_chunk_size(size);
+                    }
                 }
                 idx += 1;
             });
@@ -119,6 +123,8 @@ pub fn run_history(ops: &[Op], tier: Tier, rng: &mut Rng, out: &mut Out) {
             );
             return;
         }
+        let is_ann: Vec<bool> = scs.iter().map(|x| x.is_some()).collect();
+        chunkgen::accept_announced_sizes(&mut expected, &got, &is_ann, out);
         if let Some(class) = chunk::first_difference_class(&got, &expected) {
             out.violation(
                 &format!("library-deserializer-differs-after-drop:{}", class),
